@@ -5,7 +5,7 @@ from vlib.core import Ctx, hexs, unhex, ddmin, load_known_findings
 ID = "C19"
 MODULES = ["IoraModel.Props.C19"]
 LEANCHECK = ["IoraModel.Props.C19", "IoraModel.Lemmas.Dns", "IoraModel.Lemmas.DnsSafe", "IoraModel.Lemmas.DnsName", "IoraModel.Lemmas.DnsRoundtrip",
-             "IoraModel.Lemmas.DnsRecords", "IoraModel.Lemmas.DnsCache", "IoraModel.Model.Dns", "IoraModel.Model.DnsCache", "IoraModel.Spec.DnsWire"]
+             "IoraModel.Lemmas.DnsRecords", "IoraModel.Lemmas.DnsMessage", "IoraModel.Lemmas.DnsTyped", "IoraModel.Lemmas.DnsCache", "IoraModel.Model.Dns", "IoraModel.Model.DnsCache", "IoraModel.Spec.DnsWire"]
 OBLIGATIONS = [
     {"id": "C19_N1a", "theorem": "Iora.C19.N1_sound", "kind": "proved",
      "statement": "Denotes m off ls next (RFC 1035 relation, any layout of compression pointers) and wire ls <= 253 -> decodeName m off = ok (dotted ls, next)"},
@@ -33,6 +33,20 @@ OBLIGATIONS = [
     {"id": "C19_N2_gen", "theorem": "Iora.C19.N2_gen_shape", "kind": "proved", "statement": "Gen: validateRdataSecurity inspects type A only and has no size()-1 arithmetic"},
     {"id": "C19_N2_aaaa", "theorem": "Iora.C19.N2_aaaa_exact", "kind": "proved", "statement": "any 16 octets decode to exactly that AAAA address"},
     {"id": "C19_N2_txt", "theorem": "Iora.C19.N2_txt_exact", "kind": "proved", "statement": "any sequence of character strings decodes to exactly those strings"},
+    {"id": "C19_N1_rfc_refuted", "theorem": "Iora.C19.N1_rfc_limit_refuted", "kind": "refuted", "finding": "FC19b",
+     "statement": "NOT (N1a with the RFC limit wire <= 254): the legal 255-octet name 63.63.63.61 is rejected as too long; partial = N1_sound"},
+    {"id": "C19_N2_response", "theorem": "Iora.C19.N2_response", "kind": "partial", "finding": "F13A",
+     "statement": "a response laid out per RFC 1035 4.1 with every question/owner name compressed in any way (Denotes) and no record tripping the A rule parses to exactly its header, questions and records; typed = per-record typedSpec"},
+    {"id": "C19_N2_rdata_name", "theorem": "Iora.C19.N2_rdata_name", "kind": "proved",
+     "statement": "decodeNameFromRdata returns exactly the name (any compression layout) and the offset behind it"},
+    {"id": "C19_N2_typed_a", "theorem": "Iora.C19.N2_typed_a", "kind": "proved", "statement": "typed A = its 4 octets"},
+    {"id": "C19_N2_typed_aaaa", "theorem": "Iora.C19.N2_typed_aaaa", "kind": "proved", "statement": "typed AAAA = its 16 octets"},
+    {"id": "C19_N2_typed_txt", "theorem": "Iora.C19.N2_typed_txt", "kind": "proved", "statement": "typed TXT = its character strings"},
+    {"id": "C19_N2_typed_cname", "theorem": "Iora.C19.N2_typed_cname", "kind": "proved", "statement": "typed CNAME = the RDATA name, any compression"},
+    {"id": "C19_N2_typed_ptr", "theorem": "Iora.C19.N2_typed_ptr", "kind": "proved", "statement": "typed PTR = the RDATA name, any compression"},
+    {"id": "C19_N2_typed_mx", "theorem": "Iora.C19.N2_typed_mx", "kind": "proved", "statement": "typed MX = preference + exchange name, any compression"},
+    {"id": "C19_N2_typed_srv", "theorem": "Iora.C19.N2_typed_srv", "kind": "proved", "statement": "typed SRV = priority, weight, port + target name, any compression"},
+    {"id": "C19_N2_typed_none", "theorem": "Iora.C19.N2_typed_none", "kind": "proved", "statement": "types without a typed parser yield no typed record"},
     {"id": "C19_N5", "theorem": "Iora.C19.N5_served_only_fresh", "kind": "proved",
      "statement": "for every history and clock: a served answer was stored under the same normalised key, TTL > 0, now < t + ttl, key untouched since"},
     {"id": "C19_N5b", "theorem": "Iora.C19.N5_put_ttl_is_minimum", "kind": "proved", "statement": "the TTL of put is <= the TTL of every record of the result"},
@@ -564,9 +578,12 @@ def gen_gadget_cases(rng):
             left -= l + 1
         assert wire_len(labels) == total
         w = hdr(qd=1) + b"".join(bytes([len(l)]) + l for l in labels) + b"\x00" + q_tail
-        if ok:
+        if ok or total == 254:
             exp = "ok h=4660,1,0,0,0,1,1,0,0,1,0,0,0 q=%s:1:1 an=- ns=- ar=- A=- AAAA=- SRV=- NAPTR=- CNAME=- MX=- TXT=- PTR=- SOA=-" % hx(dotted(labels))
-            cases.append({"cat": "boundary", "tag": "name wire %d" % total, "ops": ["parse " + hexs(w)], "expect": [exp]})
+            c = {"cat": "boundary", "tag": "name wire %d" % total, "ops": ["parse " + hexs(w)], "expect": [exp]}
+            if total == 254:
+                c["carve"] = ["FC19b"]      # legal per RFC 1035 2.3.4 (255 octets with the root label); hypothesis `wire <= 253` of N1_sound fails
+            cases.append(c)
         else:
             cases.append({"cat": "boundary", "tag": "name wire %d" % total, "ops": ["parse " + hexs(w)], "must_err": True, "kind": "nameTooLong"})
         # the same name reached through a pointer after a prefix: the running length spans the jump
@@ -996,8 +1013,8 @@ def run(ctx: Ctx):
                 # hypothesis of a partial theorem fails on this input: counted under the finding iff it is listed (DESIGN 5.3)
                 for fid in c["carve"]:
                     carve_counts[fid] = carve_counts.get(fid, 0) + 1
-                    if fid not in known_ids:
-                        report_property(ctx, hb, c, impl, model, ["N2: well-formed A record rejected (finding %s is not listed in KNOWN_FINDINGS.txt): %s -> %s"
+                    if fid not in known_ids and not impl[0].startswith("ok"):
+                        report_property(ctx, hb, c, impl, model, ["N2: well-formed input rejected (finding %s is not listed in KNOWN_FINDINGS.txt): %s -> %s"
                                                                    % (fid, c["ops"][0][:80], impl[0][:60])])
             if fails:
                 report_property(ctx, hb, c, impl, model, fails)
@@ -1021,7 +1038,7 @@ def run(ctx: Ctx):
     ctx.extra["input_distribution"] = dist
     ctx.extra["partial_hypotheses"] = carve_counts
     ctx.extra["repo_tree_sha"] = ctx.repo_tree_sha(ANCHOR_FILES)
-    ctx.extra["refuted"] = [{"statement": "Iora.C19.N2_A_statement", "finding": "F13A"}]
+    ctx.extra["refuted"] = [{"statement": "Iora.C19.N2_A_statement", "finding": "F13A"}, {"statement": "Iora.C19.N1_rfc_limit_statement", "finding": "FC19b"}]
     ctx.extra["not_proved"] = NOT_PROVED
     ctx.assumptions += ["steady_clock reading + TTL·10^9 < 2^63 ns (no overflow of the expiration time point; uptime far below 146 years)",
                         "DnsCache default TTL in [0, 2^32) seconds",
@@ -1033,25 +1050,37 @@ def run(ctx: Ctx):
 
 
 NOT_PROVED = [
-    "N2 for whole responses with every typed RDATA parser (exact typed decoding is validated by lockstep + the reference-encoder monitor; proved: names N1, questions/queries N1q, A-record rule N2_A_partial)",
+    "N2 typed exactness for SOA and NAPTR records (validated by lockstep + the reference-encoder monitor only; A, AAAA, TXT, CNAME, PTR, MX, SRV and the whole-response theorem are proved)",
     "N6 processResponse containment (dns_transport.hpp) is not modelled",
+    "inet_ntop text form of AAAA addresses (libc; the harness canonicalises through inet_pton)",
 ]
 
 
+RECORDED = {   # finding id -> (witness file, answer of the real code while the defect is present, text)
+    "F13A": ("F13A-a-record-192-x-0-0.json", "err malicious",
+             "well-formed A record 192.x.0.0 (x<64) rejected as a 'malicious compression pointer'"),
+    "FC19b": ("FC19b-name-255-octets.json", "err nameTooLong",
+              "legal maximum-length name (255 octets on the wire) rejected: totalLength compared with DNS_MAX_NAME_SIZE=253"),
+}
+
+
 def replay_known(ctx, hb, known_ids, carve_counts):
-    d = os.path.join(corpus_dir(), "F13A-a-record-192-x-0-0.json")
-    if not os.path.exists(d):
-        return
-    w = json.load(open(d))
-    out, rc, err = ctx.run_lines([hb], w["ops"], timeout=60)
-    still = bool(out) and out[0].startswith("err malicious")
-    if still and "F13A" in known_ids:
-        ctx.known_lines.append("KNOWN-FINDING: property=C19 id=F13A well-formed A record 192.x.0.0 (x<64) rejected as a 'malicious compression pointer' "
-                               "(witness %s; %d generated cases in the carve-out this run)" % (os.path.relpath(d, os.path.dirname(corpus_dir())), carve_counts.get("F13A", 0)))
-    elif still:
-        ctx.violation("property", "N2: well-formed A record 192.32.0.0 is rejected as malicious and the finding F13A is not listed in KNOWN_FINDINGS.txt",
-                      {"ops": w["ops"], "observed": out, "expected": w.get("expect")}, found_input=True)
-    # if it no longer fails the lockstep on the corpus case has already reported the model/implementation disagreement
+    """DESIGN 5.3: every recorded finding's witness is replayed against the real code on every run."""
+    for fid, (fn, bad_answer, text) in RECORDED.items():
+        d = os.path.join(corpus_dir(), fn)
+        if not os.path.exists(d):
+            ctx.violation("correspondence", "witness file of recorded finding %s is missing: %s" % (fid, fn), {"broken": {"correspondence": fn}})
+            continue
+        w = json.load(open(d))
+        out, rc, err = ctx.run_lines([hb], w["ops"], timeout=60)
+        still = bool(out) and out[0].startswith(bad_answer)
+        if still and fid in known_ids:
+            ctx.known_lines.append("KNOWN-FINDING: property=C19 id=%s %s (witness corpus/C19/%s; %d generated cases in the carve-out this run)"
+                                   % (fid, text, fn, carve_counts.get(fid, 0)))
+        elif still:
+            ctx.violation("property", "N2: %s and the finding %s is not listed in KNOWN_FINDINGS.txt" % (text, fid),
+                          {"ops": w["ops"], "observed": out, "expected": w.get("expect")}, found_input=True)
+        # if it no longer fails, the lockstep on the corpus case has already reported that model and implementation disagree
 
 
 def report_property(ctx, hb, c, impl, model, fails, extra=None):
